@@ -48,6 +48,7 @@ class Run:
         self.timeout_ms = 30000 if tier == 'quick' else 120000
         self.known = [k for k in load_known() if k.get('property') == prop]
         self.pending = []
+        self._battery_memo = {}
         # runs against a scratch copy (mutation testing) must never overwrite the evidence of the real tree
         self.outroot = VERIF if os.path.realpath(repo) == '/repo' else os.path.join(VERIF, '.work', 'scratch')
         rd = os.path.join(self.outroot, 'replays', prop)
@@ -136,16 +137,21 @@ class Run:
         model = r.get('model') or r.get('candidate')
         rep = self.replayers.get(o.fn)
         reproduced, detail = None, None
+        if len(self.violations) >= 6:
+            rep = None              # the report is capped at 6 violation lines: no further replays (they run the real code and take time)
         if rep is not None and model is not None:
             try:
-                reproduced, detail = rep(o, model)
+                reproduced, detail = _isolated(rep, o, model)
             except Exception as ex:       # replay harness problems are not verdicts
                 detail = 'replay harness error: ' + repr(ex) + '\n' + traceback.format_exc()
                 reproduced = None
         if not reproduced and rep is not None:
             # bounded search around the obligation: the replayer's own battery (model=None)
             try:
-                reproduced, detail2 = rep(o, None)
+                key = (id(rep), o.fn)
+                if key not in self._battery_memo:
+                    self._battery_memo[key] = _isolated(rep, o, None)
+                reproduced, detail2 = self._battery_memo[key]
                 if reproduced:
                     detail = detail2
             except Exception as ex:
@@ -273,6 +279,48 @@ class Run:
 
 
 _PENDING, _REPO = [], '/repo'
+
+
+def _isolated(rep, o, model, timeout=900):
+    """replayers call the real (numba-compiled, possibly parallel) code: run them in a forked child so that the parent never
+    initialises numba's threading layer (a later fork pool would deadlock) and a crash or hang of the replay cannot take the check down"""
+    import multiprocessing as mp
+    rd, wr = mp.get_context('fork').Pipe(duplex=False)
+
+    def child():
+        try:
+            res = rep(o, model)
+            wr.send(('ok', (bool(res[0]), None if res[1] is None else str(res[1])[:4000])))
+        except BaseException as ex:      # noqa
+            wr.send(('err', repr(ex) + '\n' + traceback.format_exc()[-1500:]))
+        finally:
+            wr.close()
+            os._exit(0)
+    pid = os.fork()
+    if pid == 0:
+        rd.close()
+        child()
+    wr.close()
+    try:
+        if rd.poll(timeout):
+            kind, payload = rd.recv()
+        else:
+            kind, payload = 'err', f'replay did not finish within {timeout} s'
+    except EOFError:
+        kind, payload = 'err', 'replay process died without an answer'
+    finally:
+        try:
+            os.kill(pid, 9)
+        except ProcessLookupError:
+            pass
+        try:
+            os.waitpid(pid, 0)
+        except ChildProcessError:
+            pass
+        rd.close()
+    if kind == 'ok':
+        return payload
+    raise RuntimeError(payload)
 
 
 def _gen_worker(k):
